@@ -69,6 +69,7 @@ where
     N::Data: Clone,
 {
     fresh_noise(&enc_ops(ops));
+        crate::suites::eg::warm_up(&enc_ops(ops));
     let mut eg: EGraph<Main, N> = EGraph::default();
     let mut tracked: Vec<AppliedId> = Vec::new();
     let mut checkpoints = Vec::new();
